@@ -416,12 +416,31 @@ Record iter := mkIter {
   bi_start : bytes;
   bi_limit : option bytes;
   bi_lower : bytes;                         (* batchIterator.lower: the range's start, fixed at creation *)
-  it_clamp : bool                           (* true: the repaired batchIterator (Seek / Reset go through from());
+  it_clamp : bool;                          (* true: the repaired batchIterator (Seek / Reset go through from());
                                                false: the code as first found (they take the seek key as it is) *)
+  it_merge : bool;                          (* true: the merging levelIterator (a write transaction's iterator shows the
+                                               transaction's view); false: the code as found before that repair (the
+                                               committed run followed by the run of net puts).  The fields below are
+                                               used by the merging iterator only, the bi_ fields by the other only. *)
+  mi_keys : list (bytes * option bytes);    (* batchIterator.keys with m: the keys of the range the batch has written,
+                                               ascending; Some v = net put, None = net delete *)
+  mi_ptr : nat;                             (* batchIterator.ptr *)
+  mi_on_iter : bool;                        (* levelIterator.onIter / onBatch / started *)
+  mi_on_batch : bool;
+  mi_started : bool
 }.
+(* batch.netChanges(start, limit): the keys of [start, limit) in puts or deletes, ascending (sort.Strings), each with
+   the pending value when its last operation is a put *)
+Definition bi_in (start : bytes) (limit : option bytes) (k : bytes) : bool :=
+  ble start k && match limit with None => false | Some l => blt k l end.
+Definition net_changes (b : batch) (start : bytes) (limit : option bytes) : list (bytes * option bytes) :=
+  let keys := fold_right (fun k acc => m_put k tt acc) [] (map fst (b_puts b) ++ map fst (b_dels b)) in
+  map (fun e : bytes * unit => (fst e, fst (batch_get b (fst e))))
+      (filter (fun e : bytes * unit => bi_in start limit (fst e)) keys).
 (* levelBucket.NewIterator(&Range{start, limit}); a nil slice is Range{nil, nil}.
-   [clamp] selects the repaired batchIterator (true) or the one first found (false). *)
-Definition new_iterator_gen (clamp : bool) (s : store) (ob : option batch) (h : handle) (start limit : bytes) : iter :=
+   [clamp] selects the repaired batchIterator.Seek / Reset (true) or the ones first found (false); [merge] the merging
+   levelIterator (true) or the one found before that repair (false; only then does [clamp] matter). *)
+Definition new_iterator_gen (clamp merge : bool) (s : store) (ob : option batch) (h : handle) (start limit : bytes) : iter :=
   let istart := inner_key (h_path h) start in
   let ilimit := match limit with
                 | [] => bp_limit (inner_key (h_path h) [])
@@ -431,9 +450,10 @@ Definition new_iterator_gen (clamp : bool) (s : store) (ob : option batch) (h : 
          (match ob with None => true | Some _ => false end)
          (range_entries s istart ilimit) SOI false
          (match ob with None => [] | Some b => net_puts_by_prefix b [] end)
-         (-1) istart ilimit istart clamp.
+         (-1) istart ilimit istart clamp merge
+         (match ob with None => [] | Some b => net_changes b istart ilimit end) O false false false.
 (* the code as it is now *)
-Definition new_iterator : store -> option batch -> handle -> bytes -> bytes -> iter := new_iterator_gen true.
+Definition new_iterator : store -> option batch -> handle -> bytes -> bytes -> iter := new_iterator_gen true true.
 
 Fixpoint find_ge (k : bytes) (ents : list (bytes * bytes)) (i : nat) : option nat :=
   match ents with
@@ -449,9 +469,7 @@ Definition ldb_next (it : iter) : bool * lpos :=
   | At n => if (S n <? length (it_ents it))%nat then (true, At (S n)) else (false, EOI)
   | EOI => (false, EOI)
   end.
-(* batchIterator *)
-Definition bi_in (start : bytes) (limit : option bytes) (k : bytes) : bool :=
-  ble start k && match limit with None => false | Some l => blt k l end.
+(* batchIterator of the code before the merging repair *)
 Fixpoint bi_scan (start : bytes) (limit : option bytes) (keys : list (bytes * bytes)) (i from : Z) : option Z :=
   match keys with
   | [] => None
@@ -461,10 +479,10 @@ Definition bi_len (it : iter) : Z := Z.of_nat (length (bi_keys it)).
 Definition bi_end (it : iter) : bool := bi_len it <=? bi_ptr it.
 Definition set_batch (it : iter) (ptr : Z) (start : bytes) : iter :=
   mkIter (it_pl it) (it_path it) (it_ro it) (it_ents it) (it_pos it) (it_end it) (bi_keys it) ptr start (bi_limit it)
-         (bi_lower it) (it_clamp it).
+         (bi_lower it) (it_clamp it) (it_merge it) (mi_keys it) (mi_ptr it) (mi_on_iter it) (mi_on_batch it) (mi_started it).
 Definition set_ldb (it : iter) (pos : lpos) (e : bool) : iter :=
   mkIter (it_pl it) (it_path it) (it_ro it) (it_ents it) pos e (bi_keys it) (bi_ptr it) (bi_start it) (bi_limit it)
-         (bi_lower it) (it_clamp it).
+         (bi_lower it) (it_clamp it) (it_merge it) (mi_keys it) (mi_ptr it) (mi_on_iter it) (mi_on_batch it) (mi_started it).
 (* batchIterator.from: the position a Seek or Reset to [k] starts at — k, or the lower bound of the range when k
    lies below it (bytes.Compare on the inner keys) *)
 Definition bi_from (it : iter) (k : bytes) : bytes := if blt k (bi_lower it) then bi_lower it else k.
@@ -482,27 +500,94 @@ Definition bi_next (it : iter) : bool * iter :=
   | Some i => (true, set_batch it i (bi_start it))
   | None => (false, set_batch it (bi_len it) (bi_start it))
   end.
-(* levelIterator.Seek *)
-Definition iter_seek (it : iter) (key : bytes) : bool * iter :=
+(* levelIterator.Seek of the code before the merging repair (and of read transactions) *)
+Definition iter_seek_u (it : iter) (key : bytes) : bool * iter :=
   let ik := inner_key (it_path it) key in
   let '(sk, pos) := ldb_seek it ik in
   if sk then (true, if it_ro it then set_ldb it pos false else set_batch (set_ldb it pos false) (-1) (bi_pos it ik))
   else let it1 := set_ldb it pos true in
        if it_ro it then (false, it1) else bi_seek it1 ik.
-(* levelIterator.Next *)
-Definition iter_next (it : iter) : bool * iter :=
+(* levelIterator.Next of the code before the merging repair (and of read transactions) *)
+Definition iter_next_u (it : iter) : bool * iter :=
   if it_end it then
     if it_ro it || bi_end it then (false, it) else bi_next it
   else let '(has, pos) := ldb_next it in
        if has then (true, set_ldb it pos false)
        else let it1 := set_ldb it pos true in
             if it_ro it || bi_end it1 then (false, it1) else bi_next it1.
+
+(* ---- the merging levelIterator (write transactions).  The snapshot side is it_ents / it_pos / it_end as above, the
+   batch side mi_keys / mi_ptr. *)
+Definition mi_active (it : iter) : bool := negb (it_ro it) && it_merge it.
+Definition set_mi (it : iter) (ptr : nat) (oi ob st : bool) : iter :=
+  mkIter (it_pl it) (it_path it) (it_ro it) (it_ents it) (it_pos it) (it_end it) (bi_keys it) (bi_ptr it) (bi_start it)
+         (bi_limit it) (bi_lower it) (it_clamp it) (it_merge it) (mi_keys it) ptr oi ob st.
+(* iter.Key() of the snapshot iterator ([] when it is not positioned) *)
+Definition mi_snap_cur (it : iter) : option (bytes * bytes) :=
+  match it_pos it with At n => nth_error (it_ents it) n | _ => None end.
+(* batchIterator.End / Key+Value / Deleted *)
+Definition mi_bend (it : iter) : bool := (length (mi_keys it) <=? mi_ptr it)%nat.
+Definition mi_batch_cur (it : iter) : option (bytes * option bytes) := nth_error (mi_keys it) (mi_ptr it).
+Definition mi_deleted (it : iter) : bool :=
+  match mi_batch_cur it with Some (_, None) => true | _ => false end.
+(* batchIterator.Next: ptr++ unless at the end *)
+Definition mi_bnext (it : iter) : nat := if mi_bend it then mi_ptr it else S (mi_ptr it).
+(* sort.SearchStrings(keys, k): the first index whose key is >= k, len(keys) when there is none *)
+Fixpoint mi_search (k : bytes) (keys : list (bytes * option bytes)) : nat :=
+  match keys with
+  | [] => O
+  | (k', _) :: r => if ble k k' then O else S (mi_search k r)
+  end.
+(* iter.Next() of the snapshot iterator, recorded as levelIterator does: iterEnd = !iter.Next() *)
+Definition mi_snap_next (it : iter) : iter := let '(has, pos) := ldb_next it in set_ldb it pos (negb has).
+(* levelIterator.merge: one round of the loop per unit of fuel (every further round has consumed a batch key) *)
+Fixpoint mi_merge (fuel : nat) (it : iter) : bool * iter :=
+  let oi := negb (it_end it) in
+  let ob := negb (mi_bend it) in
+  let '(oi, ob) :=
+    if oi && ob
+    then match bcmp (match mi_snap_cur it with Some (k, _) => k | None => [] end)
+                    (match mi_batch_cur it with Some (k, _) => k | None => [] end) with
+         | Lt => (true, false) | Eq => (true, true) | Gt => (false, true)
+         end
+    else (oi, ob) in
+  if negb ob || negb (mi_deleted it) then (oi || ob, set_mi it (mi_ptr it) oi ob (mi_started it))
+  else match fuel with
+       | O => (false, set_mi it (mi_ptr it) false false (mi_started it))
+       | S f => let it1 := if oi then mi_snap_next it else it in
+                mi_merge f (set_mi it1 (mi_bnext it1) oi ob (mi_started it1))
+       end.
+Definition mi_fuel (it : iter) : nat := S (length (mi_keys it)).
+(* levelIterator.Seek in a write transaction *)
+Definition mi_seek (it : iter) (key : bytes) : bool * iter :=
+  let ik := inner_key (it_path it) key in
+  let '(sk, pos) := ldb_seek it ik in
+  let it1 := set_ldb it pos (negb sk) in
+  mi_merge (mi_fuel it) (set_mi it1 (mi_search ik (mi_keys it1)) (mi_on_iter it1) (mi_on_batch it1) true).
+(* levelIterator.Next in a write transaction *)
+Definition mi_next (it : iter) : bool * iter :=
+  let it1 := if mi_on_iter it || negb (mi_started it) then mi_snap_next it else it in
+  let it2 := set_mi it1 (if mi_on_batch it1 then mi_bnext it1 else mi_ptr it1) (mi_on_iter it1) (mi_on_batch it1) true in
+  mi_merge (mi_fuel it) it2.
+
+(* levelIterator.Seek / Next *)
+Definition iter_seek (it : iter) (key : bytes) : bool * iter :=
+  if mi_active it then mi_seek it key else iter_seek_u it key.
+Definition iter_next (it : iter) : bool * iter :=
+  if mi_active it then mi_next it else iter_next_u it.
+
 Definition nth_entry (l : list (bytes * bytes)) (i : Z) : option (bytes * bytes) :=
   if i <? 0 then None else nth_error l (Z.to_nat i).
-Definition iter_raw (it : iter) : option (bytes * bytes) :=
+Definition iter_raw_u (it : iter) : option (bytes * bytes) :=
   if negb (it_end it) then match it_pos it with At n => nth_error (it_ents it) n | _ => None end
   else if negb (it_ro it) && negb (bi_end it) then nth_entry (bi_keys it) (bi_ptr it)
   else None.
+Definition mi_raw (it : iter) : option (bytes * bytes) :=
+  if mi_on_batch it
+  then match mi_batch_cur it with Some (k, Some v) => Some (k, v) | Some (k, None) => Some (k, []) | None => None end
+  else if mi_on_iter it then mi_snap_cur it
+  else None.
+Definition iter_raw (it : iter) : option (bytes * bytes) := if mi_active it then mi_raw it else iter_raw_u it.
 (* levelIterator.Key: nil unless positioned; Value: empty unless positioned *)
 Definition iter_key (it : iter) : option bytes :=
   match iter_raw it with
@@ -814,14 +899,24 @@ Definition step_gen (snap : bool) (st : state) (o : op) : state * res :=
 Definition step : state -> op -> state * res := step_gen true.
 Definition step_unrepaired : state -> op -> state * res := step_gen false.
 
-(* the batchIterator as first found (Seek / Reset take the seek key as it is, also below the range's start): the same
-   step, every iterator carrying [it_clamp = false].  The switch is a field of the iterator that no operation changes,
+(* the levelIterator as found before the merging repair, and (step_seek_unrepaired) as first found, with the
+   batchIterator whose Seek / Reset take the seek key as it is, also below the range's start: the same
+   step, every iterator carrying [it_merge = false], and [it_clamp = false] in the second.  The switch is a field of the iterator that no operation changes,
    so clearing it after every step is creating every iterator with [new_iterator_gen false]. *)
 Definition it_unclamp (it : iter) : iter :=
   mkIter (it_pl it) (it_path it) (it_ro it) (it_ents it) (it_pos it) (it_end it) (bi_keys it) (bi_ptr it) (bi_start it)
-         (bi_limit it) (bi_lower it) false.
+         (bi_limit it) (bi_lower it) false false (mi_keys it) (mi_ptr it) (mi_on_iter it) (mi_on_batch it) (mi_started it).
+Definition it_unmerge (it : iter) : iter :=
+  mkIter (it_pl it) (it_path it) (it_ro it) (it_ents it) (it_pos it) (it_end it) (bi_keys it) (bi_ptr it) (bi_start it)
+         (bi_limit it) (bi_lower it) (it_clamp it) false (mi_keys it) (mi_ptr it) (mi_on_iter it) (mi_on_batch it) (mi_started it).
 Definition unclamp_all (st : state) : state :=
   with_is st (map (fun o : option (bool * iter) =>
                      match o with Some (w, it) => Some (w, it_unclamp it) | None => None end) (st_is st)).
 Definition step_seek_unrepaired (st : state) (o : op) : state * res :=
   let '(st', r) := step_gen true st o in (unclamp_all st', r).
+Definition unmerge_all (st : state) : state :=
+  with_is st (map (fun o : option (bool * iter) =>
+                     match o with Some (w, it) => Some (w, it_unmerge it) | None => None end) (st_is st)).
+(* the code before the merging repair of levelIterator (batchIterator.Seek / Reset already repaired) *)
+Definition step_iter_unmerged (st : state) (o : op) : state * res :=
+  let '(st', r) := step_gen true st o in (unmerge_all st', r).
